@@ -208,6 +208,21 @@ macro_rules! fr3_step_pubhdr {
                 let post = codec.state.get();
                 match st {
                     DecodeState::PublishHeader(h) => {
+                        // what the raw bytes say (3.3.2): variable header = 2 + topic length + (2 if QoS > 0)
+                        let known = len >= 2;
+                        let spec_hdr: u64 = if known {
+                            2 + (((data[0] as u64) << 8) | data[1] as u64) + if (h.first_byte >> 1) & 3 != 0 { 2 } else { 0 }
+                        } else {
+                            0
+                        };
+                        if known && spec_hdr > h.remaining_length as u64 {
+                            // the topic length already contradicts the Remaining Length: an error, at once -
+                            // waiting for more bytes would swallow the frames that follow
+                            assert!(matches!(r, Err(_)), "PUBLISH whose variable header exceeds its Remaining Length not reported as an error");
+                        }
+                        if known && spec_hdr <= h.remaining_length as u64 && len as u64 >= spec_hdr {
+                            assert!(!matches!(r, Ok(None)), "complete PUBLISH header withheld");
+                        }
                         match &r {
                             Ok(None) => assert!(consumed == 0 && post == st),
                             Ok(Some(Decoded::Publish(p, payload, size))) => {
